@@ -49,10 +49,11 @@ class TOPDirector(SectionLineParser):
                  'angle_restraints': [slice(0, 4)],
                  'angle_restraints_z': [0, 1]}
 
-    def __init__(self, topology, cwdir=None):
+    def __init__(self, topology, cwdir=None, parent=None):
         super().__init__()
         self.force_field = topology.force_field
         self.topology = topology
+        self.parent = parent
         self.current_meta = None
         self.current_itp = None
         self.itp_lines = []
@@ -241,6 +242,12 @@ class TOPDirector(SectionLineParser):
 
         total_count = 0
         _make_edges(self.force_field)
+
+        # the [ molecules ] entries of an included file continue
+        # the list of the file that includes it
+        if self.parent is not None:
+            self.parent.molecules.extend(self.molecules)
+            self.molecules = []
 
         for mol_name, n_mol in self.molecules:
             block = self.force_field.blocks[mol_name]
@@ -469,7 +476,7 @@ class TOPDirector(SectionLineParser):
         with open(filename, 'r') as _file:
             lines = _file.readlines()
 
-        read_topology(lines, topology=self.topology, cwdir=cwdir)
+        read_topology(lines, topology=self.topology, cwdir=cwdir, parent=self)
 
     def _split_atoms_and_parameters(self, tokens, atom_idxs):
         """
@@ -511,7 +518,7 @@ class TOPDirector(SectionLineParser):
         return atoms, tokens
 
 
-def read_topology(lines, topology, cwdir=None):
+def read_topology(lines, topology, cwdir=None, parent=None):
     """
     Parses `lines` of itp format and adds the
     molecule as a block to `force_field`.
@@ -521,6 +528,10 @@ def read_topology(lines, topology, cwdir=None):
     lines: list
         list of lines of an itp file
     force_field: :class:`vermouth.forcefield.ForceField`
+    cwdir: str
+        directory relative to which #include statements are resolved
+    parent: :class:`TOPDirector`
+        the director of the file that includes `lines`, if any
     """
-    director = TOPDirector(topology, cwdir)
+    director = TOPDirector(topology, cwdir, parent)
     return list(director.parse(iter(lines)))
